@@ -211,6 +211,18 @@ theorem dup_export_existing_asm {fs : Bytes → Option Bytes} {enc : Encoder} {i
   simp [statement, hv, directive_export, globalDirective, arity, ha, getConstant, Table.get, hg, insertConstant, hr, hl,
     hdef, GDir.name]
 
+/-- C14.export_fills_announced_asm  … whereas `.export` over an includer entry that is only ANNOUNCED (present, no value)
+is accepted on the whole-pipeline model too: no diagnostic, the includer's entry receives the file's value.  (The reading
+of "exporting a name the includer already has" that `dup_export_existing_asm` proves is "has with a value".) -/
+theorem export_fills_announced_asm {fs : Bytes → Option Bytes} {enc : Encoder} {inc : Inc} {env : Env} {st : St}
+    {el : Element} {args : Args} {n : Bytes} {v : Int} {l : Table}
+    (hv : el.val = .directive (bytesOf "export") args) (ha : args.toList = [.ident n])
+    (hl : st.locals = some l) (hdef : l.find n = some (some v)) (hg : st.globals.find n = some none)
+    (hr : Front.isRegister n = false) :
+    statement fs enc inc env st el = .ok ({ st with globals := st.globals.set n (some v) }, .ok) := by
+  simp [statement, hv, directive_export, globalDirective, arity, ha, getConstant, Table.get, hg, insertConstant, hr, hl,
+    hdef, GDir.name]
+
 /-- C14.dup_reserved_asm (2b)  `.global` of a name the includer already has (valued or announced) -/
 theorem dup_global_existing_asm {fs : Bytes → Option Bytes} {enc : Encoder} {inc : Inc} {env : Env} {st : St}
     {el : Element} {args : Args} {n : Bytes} {e : Option Int}
